@@ -106,6 +106,17 @@ def hl(a, b):
     return a + 10 * b
 
 
+def hp(a, /, b):
+    return a - 3 * b
+
+
+def hloop(a, b):
+    t = 0.0
+    for _i in range(2):
+        t = t + a * b
+    return t
+
+
 KK = 7.0
 '''
 HELPER_OTHER = '''
@@ -200,6 +211,15 @@ def templates(tier):
             yield "local-shadows-module-constant", f"KK, t = {zero}, {e1}\nreturn t - KK"
         yield "local-shadows-module-constant-branch", f"K = 0.0\nif x > y:\n    K = {e1}\nreturn K + y"
         yield "argument-named-like-constant", f"return ({e1}) * K"  # evaluated as f(x, y) with the module constant K
+    # other ways of declaring the two parameters, and keyword arguments in nested calls
+    for e1, e2 in it.product(Em[:4], Em[:4]):
+        for sig in ("x, /, y", "x, y, /", "x, y=2.0", "x: float, y: float = 1.0"):
+            yield "signature-variant", f"#sig: {sig}\nt = {e1}\nreturn t - ({e2})"
+            yield "signature-variant-call", f"#sig: {sig}\nreturn h({e1}, {e2}) + hs(x, y)"
+        yield "call-keywords", f"return h(a={e1}, b={e2})"
+        yield "call-keywords-out-of-order", f"return h(b={e2}, a={e1})"
+        yield "call-mixed-keywords", f"return hm.h2({e1}, b={e2}) + hs(x=y, y=x)"
+        yield "call-posonly-helper", f"return hp({e1}, {e2}) + hp({e2}, b={e1})"
     yield "call-permuted-names", "return hs(y, x)"
     yield "call-permuted-names", "return hs(x, y)"
     yield "call-nested", "return h(h(x, y), h(y, x))"
@@ -272,7 +292,11 @@ def build_functions(tier):
             continue
         seen.add(body)
         fname = f"f{len(out)}"
-        out.append((fname, tid, f"def {fname}(x, y):\n{_ind(body)}\n"))
+        sig = "x, y"
+        if body.startswith("#sig: "):  # a template may bring its own parameter list (same two parameters x and y)
+            first, body = body.split("\n", 1)
+            sig = first[len("#sig: "):]
+        out.append((fname, tid, f"def {fname}({sig}):\n{_ind(body)}\n"))
     return out
 
 
